@@ -43,6 +43,14 @@ def install():
         return _norm(x, *a, **k)
     np.linalg.norm = norm
     np.isscalar = lambda x: isinstance(x, sympy.Expr) or _isscalar(x)
+    # The tracer follows the NUMERIC path of the code (symbols stand for floats; comparisons are decided
+    # under the shadow valuation and recorded).  base.unitvec short-circuits its zero-length test when the
+    # length is a SymPy expression (the library's own symbolic support, since fix 2d89a18): switch that
+    # module-level flag off in the harness process so that the threshold comparison a float input meets is
+    # the one that is traced.  (C16, which checks the symbolic behaviour itself, does not install this.)
+    import spatialmath.base.vectors as _vec          # imported here, after the math.* wrappers are in place
+    if hasattr(_vec, '_symbolics'):
+        _vec._symbolics = False
 
 
 _alloc_saved = {}
